@@ -385,14 +385,19 @@ def oracle_cmakedefine(ctx: Ctx, case, line: str, data: dict, at_only: bool, got
         if any(t in data for t in rest):
             ctx.tag('oracle:cmakedefine-bare-key-token-skipped')
             return False
-        r = ref_subst_cmake(' '.join(rest), data, at_only)
+        if not all(ch in NAMECH for ch in name):
+            ctx.tag('oracle:cmakedefine-nonstandard-skipped')
+            return False
+        # the line-shaped placeholder is rendered as `#define NAME <rest, blanks normalised>` (trailing blanks
+        # dropped), then the placeholders of that text are replaced
+        r = ref_subst_cmake(f'#define {name} {" ".join(rest)}'.strip(), data, at_only)
         if r is None or any(isinstance(data.get(nm), str) and any(ch in data[nm] for ch in '@$') for nm, _ in r[2]):
             ctx.tag('oracle:cmakedefine-nonsimple-skipped')
             return False
         if any((nm not in data or data[nm] == '') for nm, e in r[2]):
             ctx.tag('oracle:cmakedefine-empty-skipped')
             return False
-        want = f'#define {name} {r[0]}'.strip() + '\n'
+        want = r[0] + '\n'
     if got != want:
         if line[:1].isspace() and line.lstrip()[1:2].isspace():
             ctx.violation('cmakedefine-indented-hash-space-takes-wrong-token',
